@@ -22,8 +22,8 @@ Print Assumptions C04_layout_le.
    PacketError, and the three packet fingerprints yield a result, PacketError, or (database not
    loaded) DatabaseError -- nothing else, no fuel exhaustion *)
 Theorem C04_packet_total : forall v b r,
-  parse_packet v b = Framed r -> (exists k, r = Ok k) \/ r = Err PacketError.
-Proof. exact parse_packet_total. Qed.
+  parse_datagram v b = Framed r -> (exists k, r = Ok k) \/ r = Err PacketError.
+Proof. exact parse_datagram_total. Qed.
 Print Assumptions C04_packet_total.
 Theorem C04_fp_tcp_total : forall md db frag ty p,
   (exists r, fp_tcp md db frag ty p = Ok r) \/ fp_tcp md db frag ty p = Err PacketError \/ fp_tcp md db frag ty p = Err DatabaseError.
